@@ -13,6 +13,7 @@ CONSTANTS
   MaxPush = 0
   Faults = {"sendErr", "recvErr", "peerClose"}
   RespShapes <- RS_sub1
+  Abandon = FALSE
   MaxArr = 1
   ArrMenu = {}
 SPECIFICATION FairSpec
